@@ -6,6 +6,7 @@ CONSTANTS
   MaxOffer = 2
   MaxLocal = 2
   AllowSelfStop = TRUE
+  AllowManual = FALSE
   ExactOffers = FALSE
   EmitScripts = FALSE
 CONSTRAINT Bound
